@@ -5,7 +5,7 @@ sys.path.insert(0, os.path.dirname(os.path.dirname(os.path.abspath(__file__))))
 from harness import common
 
 MODULES = {
-    'C13': 'cli_props', 'C14': 'cli_props', 'C15': 'cli_props', 'C16': 'c16', 'C12': 'c12', 'C07': 'c07',
+    'C13': 'cli_props', 'C14': 'cli_props', 'C15': 'cli_props', 'C16': 'c16', 'C12': 'c12', 'C07': 'c07', 'C05': 'c05',
 }
 
 
